@@ -113,6 +113,17 @@ def _ec_pool(r, f, focus, max_diff):
       pool.append(ec_weak_priv_spec(r, c, k_first))
     for _ in range(r.randint(0, 2)):
       pool.append(ec_weak_priv_spec(r, r.choice(on), k_first))
+  if "weak_priv" in enabled and r.random() < 0.35:
+    # the same structured key twice (two certificates / another encoding):
+    # every copy must be flagged with its private key
+    src = next(a for a in pool if a["fam"].startswith("weak_priv"))
+    cpy = dict(src)
+    cpy["truth"] = dict(src["truth"], copy_of="weak_priv")
+    if r.random() < 0.5:
+      ln = (int(A.curves()[src["curve"]].p.bit_length()) + 7) // 8 + 1
+      cpy["x"] = A.i2h(int(src["x"], 16), ln)
+      cpy["y"] = A.i2h(int(src["y"], 16), ln)
+    pool.append(cpy)
   if "overshoot" in enabled and r.random() < 0.5:
     pool.append(A.ec_overshoot(r, c1))
   if "small_diff" in enabled:
